@@ -658,3 +658,123 @@ pub fn race_parent(entry: usize, st: &mut OStats) -> R {
     }
     Ok(())
 }
+
+// ---------------------------------------------------------------------------------------------
+// wide counts [C09, C03]: a uniqueness decision must look at the whole counter. The counter of a live allocation is
+// preset to values that are 1 modulo 2^32 (reachable with mem::forget(a.clone()) in a loop) and every
+// uniqueness-gated API must decline.
+
+pub const WIDE_APIS: [&str; 5] = ["Arc::try_unique", "Arc::try_unwrap", "Arc::is_unique", "Arc::get_mut", "UniqueArc::try_from(Arc)"];
+
+pub fn wide_child(api: usize, start: usize) -> i32 {
+    let mut a: Arc<u64> = Arc::new(5);
+    let addr = match learn_addr(&|| {
+        Arc::count(&a);
+    }) {
+        Some(x) => x,
+        None => a.heap_ptr() as usize,
+    };
+    let cell = unsafe { &*(addr as *const AtomicUsize) };
+    if cell.load(Relaxed) != 1 {
+        println!("HARNESS counter not found");
+        return 3;
+    }
+    cell.store(start, Relaxed);
+    if Arc::count(&a) != start {
+        println!("HARNESS counter not found (accessor does not follow the word)");
+        return 3;
+    }
+    println!("BEFORE api={} start={}", WIDE_APIS[api], start);
+    let _ = std::io::stdout().flush();
+    let r = std::panic::catch_unwind(std::panic::AssertUnwindSafe(|| match api {
+        0 => match Arc::try_unique(a) {
+            Ok(u) => {
+                std::mem::forget(u);
+                true
+            }
+            Err(b) => {
+                std::mem::forget(b);
+                false
+            }
+        },
+        1 => match Arc::try_unwrap(a) {
+            Ok(_) => true,
+            Err(b) => {
+                std::mem::forget(b);
+                false
+            }
+        },
+        2 => {
+            let g = a.is_unique();
+            std::mem::forget(a);
+            g
+        }
+        3 => {
+            let g = Arc::get_mut(&mut a).is_some();
+            std::mem::forget(a);
+            g
+        }
+        _ => match <triomphe::UniqueArc<u64> as std::convert::TryFrom<Arc<u64>>>::try_from(a) {
+            Ok(u) => {
+                std::mem::forget(u);
+                true
+            }
+            Err(b) => {
+                std::mem::forget(b);
+                false
+            }
+        },
+    }));
+    match r {
+        Ok(true) => println!("GRANTED"),
+        Ok(false) => println!("DECLINED word={}", cell.load(Relaxed)),
+        Err(_) => println!("CAUGHT"),
+    }
+    let _ = std::io::stdout().flush();
+    std::process::exit(0);
+}
+
+pub fn wide_parent(api: usize, st: &mut OStats) -> R {
+    let exe = std::env::current_exe().map_err(|e| Viol {
+        props: "",
+        oracle: "harness",
+        msg: format!("current_exe: {}", e),
+    })?;
+    for start in [(1usize << 32) + 1, 1usize << 32, (1usize << 33) + 1, (1usize << 48) + 1, (1usize << 16) + 1, 3, 2] {
+        let out = std::process::Command::new(&exe)
+            .args(["ovwide", &format!("entry={}", api), &format!("start={}", start)])
+            .output()
+            .map_err(|e| Viol {
+                props: "",
+                oracle: "harness",
+                msg: format!("spawn: {}", e),
+            })?;
+        let so = String::from_utf8_lossy(&out.stdout).to_string();
+        let what = format!("{} with the count preset to {:#x}", WIDE_APIS[api], start);
+        if so.contains("HARNESS") || !so.contains("BEFORE") {
+            return viol("", "harness", format!("{}: child could not set up: {}", what, so.trim()));
+        }
+        ensure!(
+            !so.contains("GRANTED"),
+            "C09,C03",
+            "overflow",
+            "{}: sole ownership was granted although {} owners are recorded",
+            what,
+            start
+        );
+        let want = format!("DECLINED word={}", start);
+        ensure!(
+            out.status.success() && so.lines().any(|l| l == want),
+            "C09,C03",
+            "overflow",
+            "{}: expected a decline with the count unchanged; child ended with {:?} and printed '{}'",
+            what,
+            out.status,
+            so.lines().last().unwrap_or("")
+        );
+        st.counts.bump("overflow.wide.declined");
+        st.counts.bump("overflow.children");
+        st.cases.insert(hash64(&format!("wide|{}|{}", api, start)));
+    }
+    Ok(())
+}
